@@ -18,7 +18,7 @@ use crate::props::c05::mk_bcj_reader;
 use crate::util::{short, Rng};
 use crate::walk;
 
-pub const STEER: u64 = 40;
+pub const STEER: u64 = 44;
 
 pub fn n_cases(ctx: &Ctx) -> u64 {
     let base = match (ctx.variant.as_str(), ctx.thorough()) {
@@ -26,6 +26,8 @@ pub fn n_cases(ctx: &Ctx) -> u64 {
         ("miri", true) => 200,
         ("vg", false) => 300,
         ("vg", true) => 5000,
+        ("dbg0", false) => 1500,
+        ("dbg0", true) => 6000,
         ("dbg", false) => 6000,
         ("dbg", true) => 100_000,
         ("asan", false) => 10_000,
@@ -281,7 +283,8 @@ fn steer_case(ctx: &Ctx, idx: u64, r: &mut Rng) -> Case {
         3 => mk(Rd::Lzma2 { dict: 0xFFFF_FFFF }, vec![0x01, 0x00, 0x00, 0x41, 0x00], "lzma2-dict-max", 0xFFFF_FFFF, "caller dict 0xFFFFFFFF"),
         4 => mk(Rd::Lzma2 { dict: 0 }, vec![0x01, 0x00, 0x00, 0x41, 0x00], "lzma2-dict-0", 0, "caller dict 0"),
         5 | 6 => {
-            // many empty LZIP members
+            // many empty LZIP members (the MT reader also in the slow builds: recursion per unit is
+            // only turned into a loop by the optimiser)
             let n = if big { 200_000 } else { 300 };
             let e = encode(&Spec { c: Container::Lzip { member: None }, o: fast(4096) }, &[], &[0], 0).unwrap_or_default();
             let mut b = Vec::with_capacity(e.len() * n);
@@ -451,6 +454,24 @@ fn steer_case(ctx: &Ctx, idx: u64, r: &mut Rng) -> Case {
                 out.extend_from_slice(b"YZ");
             }
             mk(Rd::Xz { multi: false }, out, "xz-many-empty-blocks", 4096, &format!("{n} empty blocks"))
+        }
+        40..=42 => {
+            // LZMA2 size fields at their maximum: an uncompressed chunk of exactly 65536 bytes (size
+            // field 0xFFFF), valid (40, 41) and as a first chunk without dictionary reset (42)
+            let mut b = vec![if idx == 42 { 0x02 } else { 0x01 }, 0xFF, 0xFF];
+            b.extend(r.bytes(65536));
+            b.push(0x00);
+            if idx == 41 {
+                mk(Rd::Lzma2Mt { dict: 65536, workers: 2 }, b, "lzma2-max-uncompressed-chunk", 65536, "uncompressed chunk of 65536 bytes")
+            } else {
+                mk(Rd::Lzma2 { dict: 65536 }, b, "lzma2-max-uncompressed-chunk", 65536, "uncompressed chunk of 65536 bytes")
+            }
+        }
+        43 => {
+            // LZMA chunk announcing 2 MiB of output and 64 KiB of input, with only a few input bytes
+            let mut b = vec![0xFF, 0xFF, 0xFF, 0xFF, 0xFF, 0x5D];
+            b.extend(r.bytes(100));
+            mk(Rd::Lzma2 { dict: 4096 }, b, "lzma2-max-lzma-chunk", 4096, "LZMA chunk sizes 2 MiB / 64 KiB, truncated")
         }
         _ => {
             // Lzma2ReaderMT with garbage
@@ -856,7 +877,13 @@ pub fn run_case(ctx: &Ctx, idx: u64) -> Vec<CaseOut> {
     let reader = case.reader.clone();
     let bufsize = case.bufsize;
     let is_mt = matches!(reader, Rd::LzipMt { .. } | Rd::Lzma2Mt { .. });
-    let dbg = if ctx.is("dbg") { " [dbg]" } else { "" };
+    let dbg = if ctx.is("dbg") {
+        " [dbg]"
+    } else if ctx.is("dbg0") {
+        " [dbg0]"
+    } else {
+        ""
+    };
 
     // workers of an earlier MT case must not allocate inside this case's window
     mt::wait_quiet();
